@@ -32,9 +32,14 @@ def gen_cases(rng, tier):
                     break
                 total += size
                 srcs.append({"arg": os.path.basename(gen_source_path(rng, used, dirs=False)), "content": spec})
+            if srcs and rng.random() < 0.3:
+                srcs.insert(rng.randint(0, len(srcs)), dict(rng.choice(srcs)))   # the same (name, kind, content) twice in the list: stored twice
             cases.append({"medium": "tape", "sources": srcs, "old": rng.choice([None, 0, 100, 21504, 30000])})
         else:
             srcs = gen_sources(rng, rng.choice([0, 1, 3, 6]), eos_rate=0.15, dirs=False, big_rate=0.03)
+            files_ = [x for x in srcs if "arg" in x]
+            if files_ and rng.random() < 0.3:
+                srcs.insert(rng.randint(0, len(srcs)), dict(rng.choice(files_)))
             cases.append({"medium": "disk", "is_fd": rng.random() < 0.5, "sources": srcs, "old": rng.choice([None, 0, 100, 1310720, 2000000, 3000000])})
     nr = scale(tier, 16, 300)
     for _ in range(nr):
@@ -49,13 +54,17 @@ def gen_cases(rng, tier):
     # finding F18's witness (Props/C20: C20_tape_extract_keeps_archive_refuted): a tape holding a member named like the archive itself
     cases.append({"medium": "tape", "read": True, "self_member": True, "sources": [{"arg": "x/IN.K7", "content": {"hex": "68656c6c6f"}}], "old": None,
                   "trail": 0, "flips": 0, "mseed": 0, "verbose": False})
+    twice = [{"arg": "x.bin", "content": {"pat": "41", "len": 300}}, {"arg": "y.bas", "content": {"pat": "42", "len": 10}}, {"arg": "x.bin", "content": {"pat": "41", "len": 300}}]
+    cases.append({"medium": "tape", "sources": twice, "old": None})
+    cases.append({"medium": "disk", "is_fd": True, "sources": twice, "old": None})
+    cases.append({"medium": "disk", "is_fd": False, "sources": twice, "old": 100})
     cases.append({"medium": "tape", "sources": [{"arg": "b.bin", "content": {"pat": "42", "len": 300}}], "old": 43008})
     cases.append({"medium": "disk", "is_fd": True, "sources": [{"arg": "b.bin", "content": {"pat": "42", "len": 300}}], "old": 1400000})
     cases.append({"medium": "disk", "is_fd": False, "sources": [{"arg": "b.bin", "content": {"pat": "42", "len": 300}}], "old": 2700000})
     return cases, {"random": n, "foreign archives read (non-FF padding, trailing bytes, flips)": nr, "fixed": 3}
 
 
-VARIANTS = [("rel", "", False), ("rel-verbose", "", True), ("dotted", "d.ot/x.y/", False), ("abs", "ABS", True), ("again", "", False), ("elsewhere", "", False)]
+VARIANTS = [("rel", "", False), ("rel-verbose", "", True), ("dotted", "d.ot/x.y/", False), ("abs", "ABS", True), ("again", "", False), ("elsewhere", "", False), ("mixed", "MIX", True)]
 
 
 def run_read_case(case, ctx):
@@ -129,7 +138,10 @@ def run_case(case, ctx):
             pre = os.path.join(cd.root, "absdir") + "/" if prefix == "ABS" else prefix
             args = []
             fs = []
-            for s in case["sources"]:
+            for k_, s in enumerate(case["sources"]):
+                if prefix == "MIX":
+                    # one command line mixing the spellings: bare, absolute, dotted directory, in turn
+                    pre = ["", os.path.join(cd.root, "absdir") + "/", "d.ot/x.y/"][k_ % 3]
                 if "eos" in s:
                     args.append(s["eos"])
                     continue
